@@ -261,11 +261,13 @@ def _compare_run(out, kind, spec, members, res, expected, what_prefix, inp, sigp
 # --------------------------------------------------------------------------
 def _runs(ctx, budget):
     cache = ctx.__dict__.setdefault("_c14runs", {})
+    if budget in (1, 10):
+        budget = 1  # the standard spec check judges the very runs the correspondence used; only the deeper search adds new ones
     if budget in cache:
         return cache[budget]
     rng = ctx.subrng(f"runs{budget}")
     n_serial = ctx.budget(40, 400) * max(1, budget // 4)
-    n_par = ctx.budget(6, 60) * max(1, budget // 4)
+    n_par = ctx.budget(6, 60) * max(1, budget // 8)
     runs = []
     for i in range(n_serial + n_par):
         parallel = i >= n_serial
